@@ -104,8 +104,13 @@ def run(ctx):
         jobs.append({"queries": [q]})
         cases.append((pat, cs, strs))
     fixed = [("x[^abxy]|y", list("abxy")), ("a[^a]", list("a")), ("a[^ab]*b|b", list("ab")), ("(?i:ß)", CHARSETS[1]), ("(?i:s)+ß?", CHARSETS[1]), ("[^a]*", CHARSETS[0]), (".", CHARSETS[1]), ("a{2,3}|b?", CHARSETS[0])]
-    for pat, cs in fixed:
-        strs = ["".join(x) for L in range(0, 4) for x in itertools.product(cs, repeat=L)][:150]
+    # patterns whose automaton has a state that is only left through arcs back to earlier (non-final) states
+    fixed += [("x([^b]|b+[^by])*b+y", list("abxy"), ["xbaby", "xbbaby", "xabby", "xbabaaby", "xbay", "xbab"]),
+              (r"/\*([^*]|\*+[^*/])*\*+/", list("/*a "), ["/**a*/", "/* a*a */", "/*a**/", "/**/", "/*a*/a", "/**a/"]),
+              ("(ab|ba)*c", list("abc"), ["ababc", "abbac", "abab", "baabc"])]
+    for fx in fixed:
+        pat, cs = fx[0], fx[1]
+        strs = ["".join(x) for L in range(0, 4) for x in itertools.product(cs, repeat=L)][:150] + (list(fx[2]) if len(fx) > 2 else [])
         jobs.append({"queries": [{"op": "regex", "pattern": pat, "charset": cs, "strings": strs}]})
         cases.append((pat, cs, strs))
     res = run_l(jobs)
